@@ -182,7 +182,7 @@ def check_doc(doc, path, res, label, rnd, nthetas):
         with contextlib.redirect_stdout(io.StringIO()):
             T = arm.FK(th.copy()).gTM()
         want = urdf_fk(doc, th)
-        if np.max(np.abs(T - want)) > 1e-6 * max(1.0, np.max(np.abs(want))):
+        if G.gt(np.max(np.abs(T - want)), 1e-6 * max(1.0, np.max(np.abs(want)))):
             near = near_half_turn(doc)
             bad('fk:origin-near-half-turn' if near else 'fk', 'FK of the loaded arm differs from the file\'s own semantics (origin transforms each followed by a rotation about the joint axis)',
                 {'theta': th.tolist(), 'diff': G.maxdiff(T, want), 'rotation_within_1e-4_of_a_half_turn_but_not_exact': near})
